@@ -31,6 +31,9 @@ namespace fsh
         std::vector<size_type> base;
         // graphs that run only the operators before a snapshot (C16 oracle side)
         std::map<std::string, std::unique_ptr<FG>> prefix_graphs;
+        // basin-graph objects kept from one bgraph call to the next (per method), so that scratch
+        // state surviving between updates is exercised
+        std::map<std::string, std::unique_ptr<bgraph_type>> bgraphs;
 
         Session(G& g, std::ostream& o)
             : grid(g)
@@ -251,6 +254,8 @@ namespace fsh
         void call_graph(Line& l)
         {
             ops.clear();
+            bgraphs.clear();
+            prefix_graphs.clear();
             graph.reset();
             mask_set = base_set = false;
             while (l.more())
@@ -532,7 +537,10 @@ namespace fsh
             if (ip->pits().empty() && false)
                 return;
             int reps = l.more() ? static_cast<int>(l.nint()) : 1;
-            bgraph_type bg(*ip, m == "k" ? fs::mst_method::kruskal : fs::mst_method::boruvka);
+            auto& slot = bgraphs[m];
+            if (!slot)
+                slot = std::make_unique<bgraph_type>(*ip, m == "k" ? fs::mst_method::kruskal : fs::mst_method::boruvka);
+            bgraph_type& bg = *slot;
             for (int r = 0; r < reps; ++r)
             {
                 bg.update_routes(elev);
